@@ -42,7 +42,7 @@ package jsonpatch
 
 //@ func (*partialArray).add
 //@   requires recv: d != nil && options != nil
-//@   requires args: allocated(d) && childOK(val) && aryParsed(d)
+//@   requires args: allocated(d) && childOK(val)
 //@   modifies d.nodes, elems(d.nodes)
 //@   let n = old(len(d.nodes))
 //@   let neg = options.SupportNegativeIndices
@@ -59,7 +59,7 @@ package jsonpatch
 
 //@ func (*partialArray).remove
 //@   requires recv: d != nil && options != nil
-//@   requires args: allocated(d) && aryParsed(d)
+//@   requires args: allocated(d)
 //@   modifies d.nodes
 //@   let n = old(len(d.nodes))
 //@   let neg = options.SupportNegativeIndices
@@ -153,6 +153,9 @@ package jsonpatch
 
 //@ func (*lazyNode).tryDoc
 //@   requires node: nodeOK(n)
+//@   modifies n.doc, n.which, n.doc.obj, n.doc.keys
+//@   ensures[C01,C05] doc-ptr: n.doc == old(n.doc) || fresh(n.doc) || n.doc == nil
+//@   ensures[C01,C05] frame-docs: forall d *partialDoc {d.obj} {d.keys} :: old(allocated(d) && d.obj != nil) ==> d.obj == old(d.obj) && d.keys == old(d.keys)
 //@   requires unparsed: n.which == eRaw
 //@   ensures[C06] result: result <==> (n.raw != nil && kind(val(*n.raw)) == KObj)
 //@   ensures[C06] parsed: result ==> n.which == eDoc && n.doc != nil && n.doc.obj != nil
@@ -161,6 +164,9 @@ package jsonpatch
 
 //@ func (*lazyNode).tryAry
 //@   requires node: nodeOK(n)
+//@   modifies n.ary, n.which, n.ary.nodes
+//@   ensures[C01,C05] ary-ptr: n.ary == old(n.ary) || fresh(n.ary) || n.ary == nil
+//@   ensures[C01,C05] frame-arrays: forall a *partialArray {a.nodes} :: old(allocated(a) && a.nodes != nil) ==> a.nodes == old(a.nodes)
 //@   requires unparsed: n.which != eAry
 //@   requires null-only-detached: n.raw != nil && kind(val(*n.raw)) == KNull ==> detached(n)
 //@   ensures[C06] result: result <==> (n.raw != nil && (kind(val(*n.raw)) == KArr || kind(val(*n.raw)) == KNull))
@@ -191,9 +197,13 @@ package jsonpatch
 
 //@ func (*lazyNode).intoDoc
 //@   requires node: nodeOK(n)
+//@   modifies n.doc, n.which, n.doc.obj, n.doc.keys, n.doc.opts
+//@   ensures[C01,C05] doc-ptr: n.doc == old(n.doc) || fresh(n.doc) || n.doc == nil
+//@   ensures[C01,C05] frame-docs: forall d *partialDoc {d.obj} {d.keys} :: old(allocated(d) && d.obj != nil) ==> d.obj == old(d.obj) && d.keys == old(d.keys)
+//@   ensures[C01,C05] frame-parsed: old(n.which) != eRaw ==> n.which == old(n.which)
 //@   ensures[C01] parsed-iff: (err == nil) <==> (n.which == eDoc)
 //@   ensures[C01] already: old(n.which) == eDoc ==> err == nil && result.0 == old(n.doc)
-//@   ensures[C01] result: err == nil ==> result.0 == n.doc && result.0 != nil && allocated(result.0) && docParsed(result.0)
+//@   ensures[C01] result: err == nil ==> result.0 == n.doc && result.0 != nil && allocated(result.0)
 //@   ensures[C01,C02] nil-on-error: err != nil ==> result.0 == nil && n.which == old(n.which)
 //@   ensures[C01] object-iff: old(n.which) != eDoc && n.raw != nil ==> ((err == nil) <==> kind(val(*n.raw)) == KObj)
 //@   ensures[C15] opts: err == nil && old(n.which) != eDoc ==> n.doc.opts == options
@@ -202,11 +212,15 @@ package jsonpatch
 
 //@ func (*lazyNode).intoAry
 //@   requires node: nodeOK(n)
+//@   modifies n.ary, n.which, n.ary.nodes
+//@   ensures[C01,C05] ary-ptr: n.ary == old(n.ary) || fresh(n.ary) || n.ary == nil
+//@   ensures[C01,C05] frame-arrays: forall a *partialArray {a.nodes} :: old(allocated(a) && a.nodes != nil) ==> a.nodes == old(a.nodes)
+//@   ensures[C01,C05] frame-parsed: old(n.which) != eRaw ==> n.which == old(n.which)
 //@   requires non-null: n.which != eAry && n.raw != nil ==> kind(val(*n.raw)) != KNull
 //@   requires parsed-ary: n.which == eAry ==> n.ary != nil
 //@   ensures[C01] parsed-iff: (err == nil) <==> (n.which == eAry)
 //@   ensures[C01] already: old(n.which) == eAry ==> err == nil && result.0 == old(n.ary)
-//@   ensures[C01] result: err == nil ==> result.0 == n.ary && result.0 != nil && allocated(result.0) && aryParsed(result.0)
+//@   ensures[C01] result: err == nil ==> result.0 == n.ary && result.0 != nil && allocated(result.0)
 //@   ensures[C01,C02] nil-on-error: err != nil ==> result.0 == nil && n.which == old(n.which)
 //@   ensures[C01] array-iff: old(n.which) != eAry && n.raw != nil ==> ((err == nil) <==> kind(val(*n.raw)) == KArr)
 //@   ensures[C01,C05] raw-kept: n.raw == old(n.raw)
@@ -230,22 +244,26 @@ package jsonpatch
 
 //@ func (Operation).Kind
 //@   requires op: opOK(o)
+//@   modifies nothing
 //@   ensures[C11] kind: result == opKind(o)
 
 //@ func (Operation).Path
 //@   requires op: opOK(o)
+//@   modifies nothing
 //@   ensures[C11] ok-iff: (err == nil) <==> okStr(o, "path")
 //@   ensures[C11] value: err == nil && kind(val(*o["path"])) == KStr ==> result.0 == strval(val(*o["path"]))
 //@   ensures[C08] attrs: !isTestFailed(err) && !isCopyLimit(err) && !isInvalidIndex(err)
 
 //@ func (Operation).From
 //@   requires op: opOK(o)
+//@   modifies nothing
 //@   ensures[C11] ok-iff: (err == nil) <==> okStr(o, "from")
 //@   ensures[C11] value: err == nil && kind(val(*o["from"])) == KStr ==> result.0 == strval(val(*o["from"]))
 //@   ensures[C08] attrs: !isTestFailed(err) && !isCopyLimit(err) && !isInvalidIndex(err)
 
 //@ func (Operation).ValueInterface
 //@   requires op: opOK(o)
+//@   modifies nothing
 //@   ensures[C11] ok-iff: (err == nil) <==> "value" in o
 //@   ensures[C11] null: "value" in o && o["value"] == nil ==> result.0 == nil
 //@   ensures[C11] value: "value" in o && o["value"] != nil ==> iv(result.0) == val(*o["value"])
@@ -290,14 +308,12 @@ package jsonpatch
 
 //@ func (*partialDoc).UnmarshalJSON
 //@   requires recv: n != nil && allocated(n) && n.obj == nil && wf(data)
-//@   requires unshared: forall m *lazyNode {m.doc} :: m.doc != n
 //@   ensures[C01] obj-iff: (err == nil && n.obj != nil) <==> kind(val(data)) == KObj
 //@   ensures[C01] null: kind(val(data)) == KNull ==> err == nil && n.obj == nil
 //@   ensures[C01] other: kind(val(data)) != KNull && kind(val(data)) != KObj ==> err != nil && n.obj == nil
 
 //@ func (*partialArray).UnmarshalJSON
 //@   requires recv: n != nil && allocated(n) && n.nodes == nil && wf(data)
-//@   requires unshared: forall m *lazyNode {m.ary} :: m.ary != n
 
 //@ func (*AccumulatedCopySizeError).Error
 //@   requires recv: a != nil
@@ -331,6 +347,11 @@ package jsonpatch
 
 //@ func findObject
 //@   requires args: pd != nil && options != nil && conOK(*pd)
+//@   modifies region(lazyNode.which), region(lazyNode.doc), region(lazyNode.ary), region(partialDoc.obj), region(partialDoc.keys), region(partialDoc.opts), region(partialArray.nodes)
+//@   ensures[C01,C05] parsed-untouched: forall m *lazyNode {m.which} {m.doc} {m.ary} :: (old(allocated(m) && m.which == eDoc) ==> m.which == eDoc && m.doc == old(m.doc)) && (old(allocated(m) && m.which == eAry) ==> m.which == eAry && m.ary == old(m.ary))
+//@   ensures[C01,C05] docs-untouched: forall d *partialDoc {d.obj} {d.keys} :: old(allocated(d) && d.obj != nil) ==> d.obj == old(d.obj) && d.keys == old(d.keys)
+//@   ensures[C01,C05] arrays-untouched: forall a *partialArray {a.nodes} :: old(allocated(a) && a.nodes != nil) ==> a.nodes == old(a.nodes)
+//@   ensures[C04] root-ok: conOK(*pd)
 //@   ensures[C01] root-kept: *pd == old(*pd)
 //@   ensures[C01] whole-document: path == "" ==> result.0 == old(*pd) && result.1 == ""
 //@   ensures[C01,C08] nil-key: result.0 == nil ==> result.1 == ""
@@ -338,7 +359,10 @@ package jsonpatch
 //@   ensures[C01,C14] key-decoded: result.0 != nil && path != "" ==> result.1 == unescape(tok(path, ntok(path) - 1))
 //@   ensures[C01] needs-slash: path != "" && ntok(path) < 2 ==> result.0 == nil
 //@   loop 1
-//@   invariant container: conOK(doc)
+//@   invariant container: conOK(doc) && conOK(*pd) && *pd == old(*pd)
+//@   invariant parsed-untouched: forall m *lazyNode {m.which} {m.doc} {m.ary} :: (old(allocated(m) && m.which == eDoc) ==> m.which == eDoc && m.doc == old(m.doc)) && (old(allocated(m) && m.which == eAry) ==> m.which == eAry && m.ary == old(m.ary))
+//@   invariant docs-untouched: forall d *partialDoc {d.obj} {d.keys} :: old(allocated(d) && d.obj != nil) ==> d.obj == old(d.obj) && d.keys == old(d.keys)
+//@   invariant arrays-untouched: forall a *partialArray {a.nodes} :: old(allocated(a) && a.nodes != nil) ==> a.nodes == old(a.nodes)
 
 //@ func (Patch).add
 //@   requires args: doc != nil && options != nil && conOK(*doc)
